@@ -8,6 +8,7 @@ first candidate that decodes — for EVERY stream of candidates), the affine/pro
 `from_random_bytes` (after the repair: the double of a curve point).  The order clause ("r times it is the
 identity") is C05's `order_dvd`, proved under the hypothesis |E| = 4r (see there).
 -/
+import Decaf.BuildsCmd
 import Decaf.Props.C07
 import Decaf.Model.Exec
 
@@ -150,3 +151,10 @@ theorem from_random_bytes_valid (bytes : List ℕ) {c : Ext} (hc : fromRandomByt
     · exact absurd hc (by simp)
 
 end C06
+
+/-! ### the statements for the two shipped routines (`C09.ark_contract`, `C09.min_contract` discharge the premise) -/
+instantiate_builds C06.valid_roundtrip
+instantiate_builds C06.decode_valid
+instantiate_builds C06.decodeSlice_valid
+instantiate_builds C06.sampler_valid
+instantiate_builds C06.elligator_valid
